@@ -527,6 +527,7 @@ func runC11(cases string, res *Result) {
 		return
 	}
 	c11ValuesHandedOver(res)
+	c11ListsWithRoomToGrow(res)
 	c11TemplatesThatIncludeThemselves(res)
 }
 
